@@ -23,12 +23,17 @@ def shapes():
         AND(n, OR(CUT, e)), AND(n, OR(AND(CUT, FAIL), e)), AND(OR(n, e), CUT, e), OR(AND(n, OR(CUT, FAIL)), e),
         AND(C("c1", X), e), AND(n, C("c1", Y)), OR(C("c1", X), e), AND(C("c2", X), CUT, C("c1", Y)),
         AND(n, AND(CUT, FAIL)), AND(AND(n, CUT), FAIL), AND(n, CUT, OR(FAIL, e)), AND(OR(CUT, n), OR(e, n)),
+        # a cut that is reached only on backtracking: in a later alternative, after an earlier one has given an answer
+        AND(C("n", Y), OR(U(X, i(1)), AND(CUT, FAIL))), AND(C("n", Y), OR(e, AND(CUT, FAIL))), AND(C("d", Y), OR(e, AND(CUT, e))),
+        AND(C("n", Y), OR(U(X, i(1)), AND(CUT, U(X, i(2))))), AND(C("n", Y), OR(FAIL, U(X, i(1)), AND(CUT, FAIL))),
+        AND(C("dn", Y), C("n", Z), OR(U(X, Z), AND(bip("greater_than", Z, i(1)), CUT, FAIL))),
+        OR(AND(C("n", Y), OR(U(X, Y), AND(CUT, FAIL))), e),
     ]
     helpers = [rule(cplx("c1", X), AND(C("n", X), CUT)), rule(cplx("c1", i(7))),
                rule(cplx("c2", X), AND(C("n", X), bip("greater_than", X, i(1)))), rule(cplx("c2", i(8)))]
     out = []
     for b in bodies:
-        rules = list(LIB[:5]) + helpers + [rule(cplx("a", X), b), fact("a", i(9))]
+        rules = list(LIB[:5]) + list(LIB[-2:]) + helpers + [rule(cplx("a", X), b), fact("a", i(9))]
         out.append((single_query_case(rules, [atom("a"), var(0, "$Q")], 7), "shape"))
         # a caller with siblings: the cut in a/1 must not affect them
         rules2 = rules + [rule(cplx("top", X, Y), AND(C("n", Y), C("a", X), C("e", Y))), rule(cplx("top", i(0), i(0)))]
@@ -42,16 +47,17 @@ def cases(tier, rng):
     out += histgen.small_cases(alpha, 6, rng, 1.0 if tier == "thorough" else 0.6, "small-exhaustive", must=CUT)
     for body in progs.small_bodies(alpha, 2):
         if CUT in body:
-            for wrap in (lambda b: OR(b, C("e", X)), lambda b: OR(C("e", X), b), lambda b: AND(C("n", X), OR(b, FAIL))):
+            for wrap in (lambda b: OR(b, C("e", X)), lambda b: OR(C("e", X), b), lambda b: AND(C("n", X), OR(b, FAIL)),
+                         lambda b: AND(C("n", Y), OR(U(X, i(1)), b)), lambda b: AND(C("d", Y), OR(C("e", X), b, U(X, i(7))))):
                 out.append((single_query_case(progs.small_program(wrap(body)), [atom("a"), var(0, "$Q")], 6), "small-in-or"))
     n = 500 if tier == "quick" else 10000
     out += histgen.random_cases(rng, n, OPTS, must=CUT)
     return out
 
-RULE = ("(a) 23 hand-picked bodies with `!` (followed by failing / succeeding / multi-answer goals, at the start / end of "
-        "either branch of a disjunction, in nested conjunctions, in a callee) alone, inside a caller with sibling goals, and "
+RULE = ("(a) 30 hand-picked bodies with `!` (followed by failing / succeeding / multi-answer goals, at the start / end of "
+        "either branch of a disjunction, in nested conjunctions, in a callee, in a later alternative that is only reached on backtracking) alone, inside a caller with sibling goals, and "
         "through solve_all; (b) all bodies of 1-3 goals over an 8-goal alphabet that contain `!` (quick: 60%), and every "
-        "2-goal body with `!` placed in / after / under a disjunction; (c) random programs in which some clause contains `!`. "
+        "2-goal body with `!` placed in / after / under a disjunction, also as a later alternative below a multi-answer goal; (c) random programs in which some clause contains `!`. "
         "Oracle: every request's answer is the reference search's (so: no later clause, no re-try of goals left of the cut, no "
         "answer beyond the one being derived, callers and siblings unaffected). Non-trivial = a cut is executed and the query "
         "still has an answer or a sibling alternative.")
